@@ -161,6 +161,23 @@ def replay(case):
         except Exception as e:
             out.append(('%s:exception:%s' % (name, type(e).__name__), '%r (d=%d m=%d)' % (e, cfg['d'], m)))
     if not out:
+        # the same observables in tiny units (every basis function x 2^-70, exact in floating point): EDMD does not depend on the
+        # scale of the basis functions, relative cut-offs must not see it either
+        class _Scaled(object):
+            def __init__(self, f_):
+                self.f_ = f_
+
+            def __call__(self, t_):
+                return self.f_(t_) * 2.0 ** -70
+        try:
+            xi, yi = pairs[0]
+            lam = tedmd.amuset_hosvd(x, xi, yi, [[_Scaled(f_) for f_ in mode] for mode in basis()], threshold=1e-12)[0]
+            msg = cmp_eigs(lam, refs[0][1], refs[0][2])
+            if msg:
+                out.append(('hosvd:small-units:eigenvalues', 'every basis function scaled by 2^-70: %s (d=%d m=%d)' % (msg, cfg['d'], m)))
+        except Exception as e:
+            out.append(('hosvd:small-units:exception:%s' % type(e).__name__, repr(e)))
+    if not out:
         # second use: one snapshot buffer and one basis list for two calls; the buffer holds other data for the first call and
         # is refilled in place with x for the second one, whose result must be that of x
         try:
